@@ -11,6 +11,7 @@ import (
 	"os"
 	"path/filepath"
 	"strings"
+	"sync"
 	"testing"
 	"time"
 
@@ -238,20 +239,65 @@ var isFuzzWorker = func() bool {
 	return false
 }()
 
+// httpRing: the journal holds the last few forwarding cases, not only the current one, and is removed half a second after
+// the last case ended rather than at once. Reason (found in round 6 with a seeded panic in serverForwardResponses): a panic on the
+// forwarding goroutine first runs that goroutine's deferred c.rw.Close() and only then prints the panic and ends the process;
+// the deferred Close makes the harness see "client connection closed", finish the case and - with the old scheme - remove the
+// journal within the tens of milliseconds the dying process still had (observed on a loaded machine in 3 of 36 runs: the driver
+// then had a crash but no replay file). With the ring the crashing case is still among the journaled ones.
+var httpRing struct {
+	mu    sync.Mutex
+	cases []httpJournal
+	timer *time.Timer
+}
+
+type httpRingDoc struct {
+	Type  string        `json:"type"` // "http-forward-ring"
+	Cases []httpJournal `json:"cases"`
+}
+
 func journalHTTP(sel uint8, frag uint16, client, origin []byte) func() {
 	w := os.Getenv("VERIF_WORK")
 	if w == "" || isFuzzWorker {
 		return nil
 	}
 	p := filepath.Join(w, fmt.Sprintf("journal-http-%d.json", os.Getpid()))
-	b, _ := json.Marshal(httpJournal{"http-forward", sel, frag, hex.EncodeToString(client), hex.EncodeToString(origin)})
-	if os.WriteFile(p, b, 0o644) != nil {
+	httpRing.mu.Lock()
+	defer httpRing.mu.Unlock()
+	if httpRing.timer != nil {
+		httpRing.timer.Stop()
+		httpRing.timer = nil
+	}
+	httpRing.cases = append(httpRing.cases, httpJournal{"http-forward", sel, frag, hex.EncodeToString(client), hex.EncodeToString(origin)})
+	if len(httpRing.cases) > 4 {
+		httpRing.cases = httpRing.cases[len(httpRing.cases)-4:]
+	}
+	b, _ := json.Marshal(httpRingDoc{"http-forward-ring", httpRing.cases})
+	if os.WriteFile(p+".tmp", b, 0o644) != nil || os.Rename(p+".tmp", p) != nil {
 		return nil
 	}
-	return func() { os.Remove(p) }
+	return func() {
+		httpRing.mu.Lock()
+		defer httpRing.mu.Unlock()
+		if httpRing.timer != nil {
+			httpRing.timer.Stop()
+		}
+		var self *time.Timer
+		self = time.AfterFunc(500*time.Millisecond, func() {
+			httpRing.mu.Lock()
+			defer httpRing.mu.Unlock()
+			if httpRing.timer == self {
+				os.Remove(p)
+				httpRing.timer = nil
+				httpRing.cases = nil
+			}
+		})
+		httpRing.timer = self
+	}
 }
 
-// TestReplayHTTP re-runs a journaled plain-HTTP forwarding case ($VERIF_REPLAY).
+// TestReplayHTTP re-runs journaled plain-HTTP forwarding cases ($VERIF_REPLAY): a ring of the last cases before the process
+// died (oldest first; the last one or two are the candidates), or a single case in the format used before round 6.
 func TestReplayHTTP(t *testing.T) {
 	p := os.Getenv("VERIF_REPLAY")
 	if p == "" {
@@ -261,13 +307,27 @@ func TestReplayHTTP(t *testing.T) {
 	if err != nil {
 		t.Fatal(err)
 	}
-	var j httpJournal
-	if json.Unmarshal(b, &j) != nil || j.Type != "http-forward" {
+	var ring httpRingDoc
+	if json.Unmarshal(b, &ring) != nil {
 		t.Skip("not an http-forward journal")
 	}
-	c, _ := hex.DecodeString(j.Client)
-	o, _ := hex.DecodeString(j.Origin)
-	oracleHTTPServer(t, j.Sel, j.Frag, c, o)
+	switch ring.Type {
+	case "http-forward":
+		var j httpJournal
+		if json.Unmarshal(b, &j) != nil {
+			t.Skip("not an http-forward journal")
+		}
+		ring.Cases = []httpJournal{j}
+	case "http-forward-ring":
+	default:
+		t.Skip("not an http-forward journal")
+	}
+	for _, j := range ring.Cases {
+		c, _ := hex.DecodeString(j.Client)
+		o, _ := hex.DecodeString(j.Origin)
+		oracleHTTPServer(t, j.Sel, j.Frag, c, o)
+	}
+	time.Sleep(300 * time.Millisecond) // a panic on a forwarding goroutine ends the process a moment after the case returned
 }
 
 func trunc(b []byte) []byte {
